@@ -121,6 +121,10 @@ fn run_life(pool: &dyn Pool, nf: usize, life: &Value) {
                             interpose::QUIET_FAILS.store(true, SeqCst);
                             interpose::set_policy(Some(Policy { mmap_fail_from: 1, ..Default::default() }));
                         }
+                        "mprotect" if s(life, "deny") == "page" => {
+                            // the target's page never becomes writable, now or while the scope is left
+                            interpose::DENY_PAGE.store(pool.addr(spec.f) & !0xfff, SeqCst);
+                        }
                         "mprotect" => interpose::set_policy(Some(Policy { mprotect_fail_at: 1, ..Default::default() })),
                         _ => {}
                     }
@@ -167,6 +171,7 @@ fn run_life(pool: &dyn Pool, nf: usize, life: &Value) {
     }));
     set_in_lib(false);
     interpose::set_policy(None);
+    interpose::DENY_PAGE.store(0, SeqCst);
     watch::diff_all("drop-end");
     // panics raised by fakes and caught by the caller are not part of an unwinding episode
     let pn = (panics::COUNT.load(SeqCst) - p0) - (CAUGHT.load(SeqCst) - c0);
@@ -217,6 +222,13 @@ fn run_scenario(sc: &Value) {
         emit(json!({"ev":"Ambient","panicking":true}));
     }
     for life in &lives {
+        if s(life, "kind") == "regen" {
+            pool::regen_paged(i(life, "f") as usize);
+            emit(json!({"ev":"Note","what":"regenerated","f":format!("f{}", i(life, "f"))}));
+            emit_targets(&*pool, nf);
+            probe(&*pool, nf, true);
+            continue;
+        }
         if ambient {
             ambient_unwind(|| run_life(&*pool, nf, life));
         } else {
